@@ -389,6 +389,8 @@ fn elements() {
     let fin_ok = match fsm.executableContent.get(&i1.finalize) { None => false, Some(b) => b.len() == 1 && match b[0].as_ref().as_any().downcast_ref::<Log>() { Some(l) => l.label == "fl" && src_is(&l.expression, "fin"), None => false } };
     vnd_check(446, i1.finalize != 0 && fin_ok);
     let i2 = inv[1];
+    // document ids: what the interpreter uses to tell the invokes of one state apart (finalize, cancel) and to order them
+    vnd_check(451, i1.doc_id != 0 && i2.doc_id != 0 && i1.doc_id < i2.doc_id);
     vnd_check(447, i2.invoke_id == "" && i2.external_id_location == "loc" && is_none(&i2.type_name) && src_is(&i2.type_expr, "ty") && is_none(&i2.src) && src_is(&i2.src_expr, "sr")
         && i2.name_list.is_empty() && !i2.autoforward && i2.params.is_none() && i2.content.is_none() && i2.finalize == 0);
     // send
